@@ -717,6 +717,7 @@ impl Check for C19 {
                 let mut r = Rng::new(c.p(0) as u64);
                 let mut o = DynOpts::default();
                 o.bad_keys = c.p(1) != 0;
+                o.float_keys = true;
                 o.max_depth = 1 + (c.p(0) as u64 % 4) as usize;
                 let x = gen_dyn(&mut r, &o, 0);
                 ctx.nontrivial();
